@@ -243,12 +243,46 @@ def _count_lines(co, parts):
 # S5 ---------------------------------------------------------------------------------------
 _fp_state = {'n': 0, 'target': None, 'where': None}
 
+_CLEANUP = {}      # file name -> set of lines lying in `finally:` bodies and `except` handlers
+FP_SKIPPED = collections.Counter()
+
+def _cleanup_lines(fn):
+    ls = _CLEANUP.get(fn)
+    if ls is None:
+        import ast
+        ls = set()
+        try:
+            tree = ast.parse(open(fn, encoding='latin-1').read())
+            for node in ast.walk(tree):
+                if isinstance(node, ast.Try):
+                    for part in list(node.finalbody) + [h for h in node.handlers]:
+                        ls.update(range(part.lineno, (part.end_lineno or part.lineno) + 1))
+        except (OSError, SyntaxError):
+            pass
+        _CLEANUP[fn] = ls
+    return ls
+
+def _in_cleanup():
+    """is the line about to execute part of some crysp frame's clean-up (a `finally:` body / `except` handler, or code
+    called from one)?  An error *there* is not 'a call that ended in an error' but an error in the recovery itself, which
+    no implementation can make atomic; faults are not injected into it."""
+    f = sys._getframe(2)
+    while f is not None:
+        fn = f.f_code.co_filename
+        if '/crysp/' in fn and f.f_lineno in _cleanup_lines(fn):
+            return True
+        f = f.f_back
+    return False
+
 def _fp_line(code, line):
     if '/crysp/' not in code.co_filename:
         return mon.DISABLE
     st = _fp_state
     st['n'] += 1
     if st['target'] is not None and st['n'] == st['target']:
+        if _in_cleanup():
+            FP_SKIPPED['injection points inside clean-up code (not injected)'] += 1
+            return
         st['where'] = (os.path.basename(code.co_filename), code.co_qualname, line)
         raise InjectedFault('%s:%s:%d' % st['where'])
 
